@@ -730,4 +730,11 @@ theorem solveChecked_unique (a b x y : QMat) (hx : solveChecked a b = some x)
   refine ext_of_get x y h5 g3 (h3.trans g1) (h4.trans g2) (fun i j hi hj => ?_)
   exact congrFun (congrFun hxy ⟨i, h3 ▸ hi⟩) ⟨j, h4 ▸ hj⟩
 
+/-! ## Non-vacuity: the checked solver does return solutions (kernel evaluation of the executable code) -/
+
+example : (solveChecked (ofRows [[2, 1], [1, 3]]) (ofRows [[1, 0, 4], [2, 5, 0]])).isSome = true := by decide +kernel
+example : (inverse (ofRows [[0, 1], [1, 3]])).isSome = true := by decide +kernel      -- needs a row swap
+example : (inverse (ofRows [[1, 2], [2, 4]])).isSome = false := by decide +kernel     -- singular
+example : (ofRows [[1, 2], [3, 4]]).wellShaped = true := by decide +kernel
+
 end IrisVerif.QMat
